@@ -157,7 +157,7 @@ impl Prop for SetterHistory {
         96
     }
     fn cases(&self, tier: Tier) -> u32 {
-        tier.pick(20_000, 600_000)
+        tier.pick(400_000, 8_000_000)
     }
     fn decode(&self, t: &mut Tape, _: Tier) -> Case {
         let n = t.below(25);
